@@ -7,6 +7,7 @@ Definition pins : list string := ["usim/_primitives/locks.py:Lock.__init__";
   "usim/_primitives/locks.py:Lock.__aenter__";
   "usim/_primitives/locks.py:Lock.__aexit__";
   "usim/_primitives/locks.py:Lock.__release__";
+  "usim/_primitives/locks.py:Lock.__repr__";
   "usim/_primitives/locks.py:<module>";
   "usim/_primitives/locks.py:Lock.<attrs>";
   "usim/_primitives/notification.py:postpone";
@@ -19,6 +20,7 @@ Definition pins : list string := ["usim/_primitives/locks.py:Lock.__init__";
   "usim/_primitives/notification.py:Notification.__unsubscribe__";
   "usim/_primitives/notification.py:Notification.__subscription__";
   "usim/_primitives/notification.py:Notification.__del__";
+  "usim/_primitives/notification.py:Notification.__repr__";
   "usim/_primitives/notification.py:<module>";
   "usim/_primitives/notification.py:Notification.<attrs>"].
 (** the functions the model of C09 was transcribed from are unchanged in /repo *)
